@@ -454,6 +454,14 @@ func (p *c08) Enumerate(tier string) [][]int32 {
 			out = append(out, []int32{19, int32(u), int32(opt)})
 		}
 	}
+	// every small integer as a result, through both front ends (tables of
+	// preallocated values have edges)
+	for n := 0; n <= 1100; n++ {
+		out = append(out, []int32{20, int32(n), int32(n % 3), int32(n % 2)})
+	}
+	for _, n := range []int32{32767, 32768, 65534, 65535, 65536, 70000} {
+		out = append(out, []int32{20, n, 0, 1})
+	}
 	for e := range c08EscapeChars {
 		for k := 0; k < 7; k++ {
 			for term := 0; term < 2; term++ {
@@ -779,7 +787,7 @@ func (p *c08) mutate(c *verifsim.Chooser, text string) (string, string) {
 func (p *c08) Run(c *verifsim.Chooser, st *Stats, render bool) *Outcome {
 	o := &Outcome{}
 	// weighted: 0 history x5, hostile text x3, tables x1 each, nesting, recursion
-	mode := []int{0, 1, 2, 3, 4, 5, 0, 0, 0, 0, 3, 3, 6, 7, 8, 9, 10, 11, 12, 13}[c.Intn(20)]
+	mode := []int{0, 1, 2, 3, 4, 5, 0, 0, 0, 0, 3, 3, 6, 7, 8, 9, 10, 11, 12, 13, 14}[c.Intn(21)]
 	sample := map[string]interface{}{}
 	defer func() {
 		if render {
@@ -894,6 +902,31 @@ func (p *c08) Run(c *verifsim.Chooser, st *Stats, render bool) *Outcome {
 		o.Nontrivial = true
 		st.fault("builtin-odd-arguments")
 		p.prepareAndPoke(o, st, text, c.Intn(2) == 0, sample)
+	case 14: // an integer result
+		n := c.Intn(70001)
+		shape := c.Intn(3)
+		opt := c.Intn(2) == 0
+		text := []string{"return %d;", "x = %d; return x;", "return %d + 0 - 1 + 1;"}[shape]
+		text = fmt.Sprintf(text, n)
+		setDesc("integer result")
+		sample["mode"], sample["script"] = "integer result", text
+		o.Digest.Str("int" + text)
+		o.Nontrivial = true
+		st.fault("integer-result")
+		ev := p.newEval(text, "")
+		err, esc := doPrepare(ev.e, opt)
+		if p.check(o, esc, "Prepare") || err != nil {
+			return o
+		}
+		for api := 1; api >= 0; api-- {
+			r := p.apiCall(ev, api, nil)
+			if p.check(o, r.Escaped, fmt.Sprintf("%s of %q", []string{"Execute", "Run"}[api], text)) {
+				return o
+			}
+			if api == 0 && !r.Failed && r.Out != fmt.Sprintf("INTEGER:%d", n) {
+				o.violate("C08/unusable-after-fault", "integer result", "%q returned %s", text, r.Out)
+			}
+		}
 	case 13: // valid scripts made of unusual material: prepare, dump, run twice, dump
 		text := c08Unusual[c.Intn(len(c08Unusual))]
 		opt := c.Intn(2) == 0
